@@ -37,6 +37,7 @@ import Driver.Suites.InfoDL
 import Driver.Suites.Magnet
 import Driver.Suites.Adopt
 import Driver.Suites.Picker
+import Driver.Suites.UdpShared
 /-! Table of suites known to the driver.  One line per suite (merge=union friendly). -/
 namespace Driver
 def registry : List Suite := [
@@ -86,5 +87,6 @@ def registry : List Suite := [
   Suites.Magnet.suite,
   Suites.Adopt.suite,
   Suites.Picker.suite,
+  Suites.UdpShared.suite,
 ]
 end Driver
